@@ -223,4 +223,11 @@ func VerifResetLazyGlobals() {
 		delete(scalarRC, k)
 	}
 	scalarRCLock.Unlock()
+	// element types registered after start-up (Register appends to the table when a type is missing from it)
+	if len(allTypes.set) > verifInitialTypes {
+		allTypes.set = allTypes.set[:verifInitialTypes:verifInitialTypes]
+	}
 }
+
+// verifInitialTypes is the length of the element-type table as the package initialises it.
+var verifInitialTypes = len(allTypes.set)
